@@ -250,7 +250,7 @@ Definition clear_derived (s : st) (a : positive) : st :=
   let s1 := set_real s (adel a (s_real s)) in
   upd_info s1 a (fun i => with_children [] (with_parent None i)).
 
-Definition rebuild_cache (e : env) (s : st) (nm : positive) : st * bool :=
+Definition rebuild_cache_prefix (e : env) (s : st) (nm : positive) : st * bool :=
   match get_ancestors (s_hn s) nm with
   | None => (set_fuel s, true)
   | Some ancs =>
@@ -265,6 +265,21 @@ Definition rebuild_cache (e : env) (s : st) (nm : positive) : st * bool :=
           end) ancs (s1, [], false) in
       (s2, err)
   end.
+
+(* repair of D15: a HyperNode that more than one HyperNode lists has no single ancestor chain
+   (GetAncestors would follow just one claimer): its rebuild fails, unless it is being deleted.
+   [rebuild_cache_prefix] is the code before the repair. *)
+Definition listed_by (hn : list (positive * info)) (c : positive) : list positive :=
+  map fst (filter (fun ki => negb (Pos.eqb (fst ki) c) &&
+                             existsb (fun m => match m with MHyper h => Pos.eqb h c | _ => false end)
+                                     (i_members (snd ki))) hn).
+Definition doubly_listed (s : st) (nm : positive) : bool :=
+  negb (match aget nm (s_hn s) with Some i => i_deleting i | None => false end) &&
+  Nat.ltb 1 (length (listed_by (s_hn s) nm)).
+Definition rebuild_cache (e : env) (s : st) (nm : positive) : st * bool :=
+  if doubly_listed s nm then (s, true) else rebuild_cache_prefix e s nm.
+Definition rebuild_cache_gen (fx : nat) : env -> st -> positive -> st * bool :=
+  if Nat.ltb 4 fx then rebuild_cache else rebuild_cache_prefix.
 
 (* ---------- UpdateHyperNode ---------- *)
 Definition remove_from_tier (s : st) (nm : positive) (t : Z) : st :=
@@ -316,7 +331,8 @@ Definition claimers (hn : list (positive * info)) (c exclude : positive) : list 
 Definition fx1 (fx : nat) : bool := Nat.ltb 0 fx.
 Definition fx2 (fx : nat) : bool := Nat.ltb 1 fx.
 Definition fx3 (fx : nat) : bool := Nat.ltb 2 fx.
-Definition fx4 (fx : nat) : bool := Nat.ltb 3 fx.   (* D14: DeleteHyperNode releases the members before rebuilding the ancestors *)   (* round 5: D2a, a listed node that no longer matches is dropped *)
+Definition fx4 (fx : nat) : bool := Nat.ltb 3 fx.
+(* level 5 (D15): rebuild_cache_gen uses the guarded rebuild_cache *)   (* D14: DeleteHyperNode releases the members before rebuilding the ancestors *)   (* round 5: D2a, a listed node that no longer matches is dropped *)
 Definition mark_failed (fx : nat) (s : st) (k : positive) : st :=
   set_ready (if fx1 fx then set_failed s (pins k (s_failed s)) else s) false.
 Definition unfail (fx : nat) (s : st) (k : positive) : st :=
@@ -326,7 +342,7 @@ Definition unfail (fx : nat) (s : st) (k : positive) : st :=
 Definition rebuild_all (fx : nat) (e : env) (s : st) (l : list positive) : st * bool :=
   fold_left (fun (acc : st * bool) k => let '(s0, e0) := acc in
                if (e0 : bool) then acc else
-               let '(s1, e1) := rebuild_cache e s0 k in
+               let '(s1, e1) := rebuild_cache_gen fx e s0 k in
                if (e1 : bool) then (mark_failed fx s1 k, true) else (unfail fx s1 k, false)) l (s, false).
 
 (* refreshReady: retry the failed rebuilds (ascending names); ready iff none is left *)
@@ -337,7 +353,7 @@ Definition refresh_ready (fx : nat) (e : env) (s : st) : st :=
                    if (e0 : bool) then acc else
                    match aget k (s_hn s0) with
                    | None => (unfail fx s0 k, false)
-                   | Some _ => let '(s1, e1) := rebuild_cache e s0 k in
+                   | Some _ => let '(s1, e1) := rebuild_cache_gen fx e s0 k in
                                if (e1 : bool) then (set_ready s1 false, true) else (unfail fx s1 k, false)
                    end) (s_failed s) (s, false) in
     if (stop : bool) then s' else set_ready s' true
@@ -368,7 +384,7 @@ Definition upd_gen (fx : nat) (e : env) (s : st) (o : hobj) : st * bool :=
               | None => set_hn s2 (aset nm (mkInfo (o_tier o) (o_members o) None [] false) (s_hn s2))
               end in
     if membersChanged || has_sel (o_members o) then
-      let '(s4, err) := rebuild_cache e s3 nm in
+      let '(s4, err) := rebuild_cache_gen fx e s3 nm in
       if err then (mark_failed fx s4 nm, true) else
       let '(s5, err5) :=
         fold_left (fun (acc : st * bool) fr => let '(s0, e0) := acc in
@@ -385,7 +401,7 @@ Definition del_gen (fx : nat) (e : env) (s : st) (nm : positive) : st * bool :=
   let s1 := upd_info s nm (with_deleting true) in
   (* repair D14: the members are released BEFORE the ancestors are rebuilt *)
   let s1' := if fx4 fx then fold_left (release_child fx nm) (stored_children s1 nm) s1 else s1 in
-  let '(s2, err) := rebuild_cache e s1' nm in
+  let '(s2, err) := rebuild_cache_gen fx e s1' nm in
   if err then (mark_failed fx s2 nm, true) else
   let s3 := unfail fx s2 nm in
   let s4 := if fx4 fx then s3 else fold_left (release_child fx nm) (stored_children s3 nm) s3 in
@@ -433,10 +449,10 @@ Definition step_gen (fx : nat) (es : env * st) (ev : event) : env * st :=
   | ENodeDel n => let e' := mkEnv (pdel n (e_nodes e)) (e_sel e) in (e', fst (trigger_gen fx e' s n))
   end.
 
-Definition upd := upd_gen 4.
-Definition del := del_gen 4.
-Definition trigger := trigger_gen 4.
-Definition step := step_gen 4.
+Definition upd := upd_gen 5.
+Definition del := del_gen 5.
+Definition trigger := trigger_gen 5.
+Definition step := step_gen 5.
 Definition run (e : env) (evs : list event) : env * st := fold_left step evs (e, init_st).
 (* the code before the repairs *)
 Definition run_prefix (e : env) (evs : list event) : env * st := fold_left (step_gen 0) evs (e, init_st).
@@ -446,6 +462,8 @@ Definition run_round2 (e : env) (evs : list event) : env * st := fold_left (step
 Definition run_round4 (e : env) (evs : list event) : env * st := fold_left (step_gen 2) evs (e, init_st).
 (* the code before the repair D14 (delete releases the members first) *)
 Definition run_round8 (e : env) (evs : list event) : env * st := fold_left (step_gen 3) evs (e, init_st).
+(* the code before the repair D15 (rebuild of a doubly listed HyperNode) *)
+Definition run_round9 (e : env) (evs : list event) : env * st := fold_left (step_gen 4) evs (e, init_st).
 
 (* from scratch: a fresh view fed only the given objects, in the given order *)
 Definition scratch (e : env) (objs : list hobj) : st := snd (run e (map EUpd objs)).
